@@ -164,6 +164,37 @@ def flattenMany (m : Module) (es : List Nat) : Program :=
   (es.flatMap fun e => (m.getD e default).params.map .param) ++
     (reach m (reachFuel m) es []).flatMap fun f => ((m.getD f default).body).flatMap (expand m)
 
+/-! ## Text form of a module (the generated program is shipped as one string literal: elaborating tens
+of thousands of numerals as Lean terms takes minutes, a string literal takes nothing).  One function per
+line: `params;rets;stmt,stmt,…` with `a x y` = alias, `f x` = fresh, `w x` = write, `p x` = param,
+`c f args… > rets…` = call.  Anything malformed makes the whole decode fail (no silent skip); the
+harness additionally compares `flatten` of the decoded module with its own linking of the IR. -/
+
+def decodeNats (s : String) : Option (List Nat) :=
+  ((s.splitOn " ").filter (· ≠ "")).mapM (·.toNat?)
+
+def decodeStmt (s : String) : Option Stmt :=
+  match (s.splitOn " ").filter (· ≠ "") with
+  | ["a", x, y] => do pure (.alias (← x.toNat?) (← y.toNat?))
+  | ["f", x] => do pure (.fresh (← x.toNat?))
+  | ["w", x] => do pure (.write (← x.toNat?))
+  | ["p", x] => do pure (.param (← x.toNat?))
+  | "c" :: f :: rest => do
+    let args := rest.takeWhile (· ≠ ">")
+    let rets := (rest.dropWhile (· ≠ ">")).drop 1
+    pure (.call (← f.toNat?) (← args.mapM (·.toNat?)) (← rets.mapM (·.toNat?)))
+  | _ => none
+
+def decodeFn (line : String) : Option Fn :=
+  match line.splitOn ";" with
+  | [ps, rs, body] => do
+    let stmts ← ((body.splitOn ",").filter (fun t => t.trimAscii.toString ≠ "")).mapM decodeStmt
+    pure ⟨← decodeNats ps, ← decodeNats rs, stmts⟩
+  | _ => none
+
+def decodeModule (code : String) : Option Module :=
+  (((code.splitOn "\n").filter (· ≠ "")).mapM decodeFn).map List.toArray
+
 /-- checker on an entry point of a module -/
 def noParamWriteEntry (m : Module) (e : Nat) : Bool := noParamWrite (flatten m e)
 
